@@ -1069,11 +1069,15 @@ class InsertAxis(Array):
 
     def _sum(self, i):
         if i == self.ndim - 1:
-            return self.func if self.dtype == bool else self.func * astype(self.length, self.func.dtype)
+            if self.dtype == bool: # any; false if the inserted axis is empty
+                return self.func if self.length._intbounds[0] > 0 else multiply(self.func, Greater(self.length, constant(0)))
+            return self.func * astype(self.length, self.func.dtype)
         return InsertAxis(sum(self.func, i), self.length)
 
     def _product(self):
-        return self.func if self.dtype == bool else self.func**astype(self.length, self.func.dtype)
+        if self.dtype == bool: # all; true if the inserted axis is empty
+            return self.func if self.length._intbounds[0] > 0 else add(self.func, Equal(self.length, constant(0)))
+        return self.func**astype(self.length, self.func.dtype)
 
     def _power(self, n):
         unaligned1, unaligned2, where = unalign(self, n)
